@@ -32,12 +32,15 @@ def pairs(pname):
     out.append(('all elements changed', ['Xe'] * k, pp.copy()))
     out.append(('grown (shared core + 2 atoms)', pel + ['F', 'He'], np.vstack([pp, pp[-1] + [0.4, 0.9, 1.1], pp[0] + [-1.2, 0.3, -0.8]])))
     out.append(('identical', list(pel), pp.copy()))
+    if k > 1:
+        out.append(('identical, atoms listed in reverse order', list(pel)[::-1], pp[::-1].copy()))
+        out.append(('grown, shared atoms listed last and reversed', ['F'] + list(pel)[::-1], np.vstack([pp[-1] + [0.4, 0.9, 1.1], pp[::-1]])))
     out.append(('disjoint larger', ['Xe', 'He', 'Ne'][:1] * 1 + ['He', 'Ne'] + ['Kr'] * (k - 1), np.vstack([pp[:1] + [0.3, 0.3, 0.3], pp[:1] + [1.0, -0.9, 0.4], pp[:1] + [-0.8, 1.1, 0.2]] + [pp[j:j + 1] + [0.2, -0.35, 0.45] for j in range(1, k)])))
     return out
 
 
 PAIR_NAMES = [p[0] for p in pairs('CNO')]
-INSERTING = ['one element changed', 'all elements changed', 'grown (shared core + 2 atoms)', 'disjoint larger']
+INSERTING = ['one element changed', 'all elements changed', 'grown (shared core + 2 atoms)', 'grown, shared atoms listed last and reversed', 'disjoint larger']
 
 
 def shared_map(pel, pp, rel, rp):
@@ -79,7 +82,7 @@ def build_case(sc, ctx):
     ncopy = sc.get('ncopies', 1)
     first = G.PLACEMENTS[sc['place']] if ncopy == 1 else ANCHORS[0]
     extra = [(sp_[(sc['subpose'] + j) % len(sp_)], ANCHORS[j]) for j in range(1, ncopy)]
-    spec = G.build(cell, sc['pat'], rot, first, decoy=sc.get('decoy', 'none'), atol=sc['atol'], noise=bool(sc.get('noise', 0)), seed=ctx['seed'], extra_copies=extra)
+    spec = G.build(cell, sc['pat'], rot, first, decoy=sc.get('decoy', 'none'), atol=sc.get('build_atol', sc['atol']), noise=bool(sc.get('noise', 0)), seed=ctx['seed'], extra_copies=extra)
     s = payload(spec, cell, ctx['seed'])
     pel, pp = G.pattern(sc['pat'])
     name, rel, rp = pairs(sc['pat'])[sc['pair']]
